@@ -71,16 +71,16 @@ prop("C08", [RT.rule_RC, WT.rule_WT3, SQ.rule_SQ2, LK.rule_AT2, ED.rule_ED],
      "height at acceptance) and is signed with the tower key; registration receipts are built from the persisted record; gRPC responses map like-named fields (RC); signed layouts cover every field "
      "once with at most one variable-length component, integers whole through to_be_bytes of their own width (WT3); updates rewrite all mutable columns, inserts/updates bind parameters in column order (SQ2); every read-modify-write of a user record is one critical section, so the record a registration receipt was built from is not overwritten by a concurrent stale copy (AT2). NOT decided: signature validity, byte-for-byte read-back.",
      technique="dominance + field-level origin tracing + SQL/bind-order tables")
-prop("C09", [RT.rule_SB, RO.rule_OR2_gatekeeper, RO.rule_OR1, SQ.rule_SQ1, RT.rule_AU1, CF.rule_CF],
+prop("C09", [RT.rule_SB, RO.rule_OR2_gatekeeper, RO.rule_OR1, SQ.rule_SQ1, RT.rule_AU1, CF.rule_CF, LK.rule_AT5],
      STATIC + "Decided: expired = (height >= subscription_expiry) reporting that expiry; outdated = (block_height >= subscription_expiry + expiry_delta); renewal = checked_add(expiry, duration).unwrap_or(MAX) "
      "on the existing-user arm; new user = (slots, height, height + duration); disconnect stores height - 1; purge pipeline + cascade + listener order; every request handler decides on the flag returned by has_subscription_expired itself (the Gatekeeper's verdict at its own height), not on a comparison re-derived from another height (AU1); the duration and grace period the Gatekeeper is built with are the configured ones — Config::verify rewrites nothing but the network name and an unset port, and main hands the configured fields to Gatekeeper::new (CF). NOT decided: behaviour across reorg histories and boundary configurations.",
      technique="comparison-shape rules over closure-resolved origin terms")
-prop("C10", [LK.rule_lock_classes, LK.rule_AT1, LK.rule_AT2, LK.rule_AT3, LK.rule_AT4, LK.rule_LK0, LK.rule_LK1],
+prop("C10", [LK.rule_lock_classes, LK.rule_AT1, LK.rule_AT2, LK.rule_AT3, LK.rule_AT4, LK.rule_AT5, LK.rule_LK0, LK.rule_LK1],
      STATIC + "Decided, for all paths and all pairs of threads: AT1 (cache look-up and store are one critical section of the locator-cache lock, block thread updates the cache before querying the DB), "
-     "AT2 (each balance read-modify-write is one critical section), AT3 (charge and store atomic against an identical concurrent submission), AT4 (a disconnection purges the Responder's index before collecting the trackers confirmed in that block, so a concurrent trigger is either collected or misses the block), LK0/LK1 (no two operations can wait on each other). "
+     "AT2 (each balance read-modify-write is one critical section), AT3 (charge and store atomic against an identical concurrent submission), AT4 (a disconnection purges the Responder's index before collecting the trackers confirmed in that block, so a concurrent trigger is either collected or misses the block), AT5 (the purge of outdated users — selection, removal from memory, deletion of the rows — is one critical section of the users lock, so a registration is handled entirely before or entirely after it), LK0/LK1 (no two operations can wait on each other). "
      "NOT decided: equivalence of final states to some sequential order (needs execution).",
      technique="guard-liveness dataflow on MIR (lock sets), lock-order graph with thread-root reachability")
-prop("C11", [LK.rule_lock_classes, LK.rule_LK0, LK.rule_LK1, LK.rule_LK2, PN.rule_PN_tower, IX.rule_IXt, OUT.rule_OUT],
+prop("C11", [LK.rule_lock_classes, LK.rule_LK0, LK.rule_LK1, LK.rule_LK2, PN.rule_PN_tower, IX.rule_IXt, OUT.rule_OUT, LK.rule_AT5],
      STATIC + "Decided: no re-entrant acquisition (LK0), no lock-order cycle between concurrently runnable threads (LK1), condvar wait discipline (LK2), and every unwrap/expect reachable from an API or chain "
      "thread root classified: request-derived ones validated by the HTTP layer, replayed inserts guarded by an existence test in the same critical section, look-ups justified in the same critical section (PNt, "
      "each labelled with the locks held, i.e. what a panic would poison); index/slice/positional operations and explicit panic!/unreachable! on those paths are discharged by constants, length guards on every path or a closed variant set of the callee (IXt); every successful poll raises the reachability flag and notifies, whoever lowered it (OUT: the only waker of threads parked in the Carrier). NOT decided: absence of panics in general (sqlite I/O), liveness after arbitrary histories.",
@@ -99,14 +99,14 @@ prop("C14", [PL.rule_PL4, PL.rule_PL5, PN.rule_PN_plugin, PL.rule_PL1, PL.rule_P
      "equals the tower id, otherwise SignatureError -> proof persisted before the status flips -> permanent on the retry path (PL4); sends only to reachable towers, status predicate tables (PL5); no reply class panics (PNp), "
      "is left unrecorded (PL1) or wedges the retry loop (PL2); the in-memory status that gates sending is written only by the listed mutators and never rebuilt from a reply (PL7); no index/slice/positional operation or explicit panic on reply-driven paths is undischarged (IXp). NOT decided: 'any reply' for panics inside reqwest/serde.",
      technique="guard facts at call sites + origin equality of verified/recorded values + classified-unwrap table")
-prop("C15", [WT.rule_HT1, PN.rule_PN2, WT.rule_WT4, IX.rule_IXt, LK.rule_CBS],
+prop("C15", [WT.rule_HT1, PN.rule_PN2, WT.rule_WT4, IX.rule_IXt, LK.rule_CBS, RT.rule_SB],
      STATIC + "Decided: the tonic codes constructible in the public handlers are all mapped by explicit arms of match_status to the documented error constants, UNEXPECTED_ERROR only on the catch-all; handle_rejection / ApiError "
      "emit only documented codes; four POST routes with their body limits, one shared recover(handle_rejection); empty/size checks precede forwarding (HT1); what the internal service unwraps on request data is validated "
-     "by the HTTP handler before the gRPC call (PN2); the HTTP layer, the serde adapters and everything reachable from the handlers contain no undischarged index/slice/byte-offset string operation or explicit panic (IXt); add_appointment cannot be refused after the slots were charged (CBS: the one state change that precedes the last failure point). NOT decided: promptness, 5xx freedom inside warp/tonic, state unchanged after non-200.",
+     "by the HTTP handler before the gRPC call (PN2); the HTTP layer, the serde adapters and everything reachable from the handlers contain no undischarged index/slice/byte-offset string operation or explicit panic (IXt); add_appointment cannot be refused after the slots were charged (CBS: the one state change that precedes the last failure point); a refused registration writes nothing to the live record (SB all-or-nothing renewal); each handler refuses exactly the documented field shapes (HT1 field-check table). NOT decided: promptness, 5xx freedom inside warp/tonic, state unchanged after non-200.",
      technique="finite code tables extracted from MIR switches + validated-before-forwarded facts")
-prop("C16", [WT.rule_WT1, WT.rule_WT2, WT.rule_WT3, WT.rule_WT4, RT.rule_AU1],
+prop("C16", [WT.rule_WT1, WT.rule_WT2, WT.rule_WT3, WT.rule_WT4, RT.rule_AU1, WT.rule_HT1],
      STATIC + "Decided: per endpoint both sides (de)serialise the same generated message type (so names, renames and adapters agree by construction); the two ApiError structs are twins; status Display/FromStr are inverse "
-     "bijections and agree with the discriminants; custom serde adapters are inverse pairs; signed layouts determine their fields; the signed message templates agree. NOT decided: round-trip identity over all values, body-size limit vs largest request.",
+     "bijections and agree with the discriminants; custom serde adapters are inverse pairs; signed layouts determine their fields; the signed message templates agree; the tower-side handlers refuse only the documented field shapes, so nothing the client can emit within the size limit is turned down for its field lengths (HT1). NOT decided: round-trip identity over all values, body-size limit vs largest request.",
      technique="type-argument agreement at (de)serialisation call sites + table extraction")
 prop("C17", [CY.rule_CY, RO.rule_EF3],
      STATIC + "Decided (agreement of sibling implementations, nothing about computed values): encrypt and decrypt build the same cipher (ChaCha20-Poly1305, key = sha256 of the secret parameter only) "
@@ -119,10 +119,10 @@ prop("C18", [PL.rule_PL7, SQ.rule_SQ1, SQ.rule_SQ3, PL.rule_PL3, SQ.rule_SQ5_cli
      STATIC + "Decided: every mutator changes memory and disk together and only mutators do; status reconstruction agrees between the two loaders; client schema cascades from towers (and appointments) with foreign keys on; "
      "multi-statement writes are transactions; add-before-delete. NOT decided: the reference-counting rule of delete_pending_appointment over operation sequences; memory == disk after histories.",
      technique="who-may-write/call tables + must-follow analysis + SQL schema tables")
-prop("C19", [RO.rule_TX, TH.rule_TH],
+prop("C19", [RO.rule_TX, TH.rule_TH, RO.rule_EF3],
      STATIC + "Decided: (TX) every mutator of the bounded index touches map, queue and per-block key list on all paths, eviction iff over size, disconnect removes exactly the keys listed for that block, "
      "`tip` moves only with an eviction; (TH) counter abstraction (tip, len, size, ghost height of the front block): each mutator path is a constant effect vector read off the MIR, get_height's result is linearised, "
-     "and reported height = chain height holds on the affine hull of all reachable states (bootstrap state + span of the path effects). NOT decided: the contents clause (exactly the transactions of the last N blocks, "
+     "and reported height = chain height holds on the affine hull of all reachable states (bootstrap state + span of the path effects); (EF3) the two indexes are bootstrapped from the newest 6 / 100 blocks of the newest-first list. NOT decided: the contents clause (exactly the transactions of the last N blocks, "
      "a key re-appearing in a replacement block), which relates container contents over histories.",
      technique="affine effect summaries per CFG path + affine-hull invariant check (Karr domain, translations only) + structural mutator rules")
 prop("C20", [CF.rule_CF, RO.rule_OR3],
